@@ -93,7 +93,12 @@ pub fn sweep(prop: &str, seed: u64, iters: usize, cap: usize, max_fail: usize, f
     let cases = props::cases(prop)?;
     let mut c = Ctx::new(prop, seed, iters, max_fail);
     c.cap = cap;
-    c.panic_only = prop == "C11";
+    if prop == "C11" {
+        // thin version: everything once more in panic-only mode, with a quarter of the budget
+        c.panic_only = true;
+        c.cap = (cap / 4).max(64);
+        c.iters = (iters / 4).max(16);
+    }
     if buffer {
         c.sink = Sink::Buffer(Vec::new());
     }
